@@ -2,6 +2,7 @@
 package c07
 
 import (
+	"errors"
 	"fmt"
 	"io"
 	"regexp"
@@ -76,7 +77,7 @@ type session struct {
 
 func opTimeout(c Case) time.Duration {
 	if c.RealTime {
-		return 150 * time.Millisecond
+		return 400 * time.Millisecond
 	}
 
 	return 2000 * time.Duration(c.ReadDelayNS)
@@ -249,6 +250,12 @@ func run1(c Case) ev.Verdict {
 	for i := 0; i < c.WarmOps; i++ {
 		if err = s.op(0); err != nil {
 			s.pipe.Release()
+
+			if c.RealTime && errors.Is(err, util.ErrTimeoutError) {
+				// wall-clock tier on a loaded machine: the warm-up did not finish in its (short)
+				// timeout; the scenario was not established
+				return ev.Verdict{OK: true, Infeasible: true, Classes: []string{"rt-warmup-too-slow"}}
+			}
 
 			return ev.Fail("warm-up operation %d: %v", i, err)
 		}
